@@ -281,6 +281,40 @@ theorem continuation_empty (p : Padder) (hv : Valid p) (hap : AlwaysPads p.schem
   rw [h1, h2, hone, htwo, hr1, hd, loopYields_succ]
   simp [hn1]
 
+/-- a history on a fresh object — block-aligned data with `padding=False`, then a final piece with at least one
+    message bit — emits, all calls together, exactly the standard's padded string of the whole message -/
+theorem pieces_concat (p : Padder) (hv : Valid p) (m1 m2 : List Nat) (hb1 : Bytes m1) (hb2 : Bytes m2)
+    (hm1 : (8 * m1.length) % p.blocksize = 0)
+    (L2 : Option Nat) (hL2 : effLen m2 L2 ≤ 8 * m2.length) (hpos2 : 0 < effLen m2 L2)
+    (hbg : L2 ≠ none → BitGranular p.scheme) :
+    let r1 := p.iterblocks {} m1 none false
+    let r2 := p.iterblocks r1.final m2 L2 true
+    r1.err = none ∧ r2.err = none ∧
+    ((r1.yields ++ r2.yields).map (·.1)).flatten
+      = padBytes (specOf p.scheme) p.blocksize (m1 ++ m2) (8 * m1.length + effLen m2 L2) := by
+  intro r1 r2
+  obtain ⟨h1, h2, _, h4⟩ := continuation p hv {} rfl m1 m2 hm1 L2 hL2 hpos2
+  have he : effLen (m1 ++ m2) (L2.map (8 * m1.length + ·)) = 8 * m1.length + effLen m2 L2 := by
+    cases L2 <;> simp [effLen, Nat.mul_add]
+  have hL : effLen (m1 ++ m2) (L2.map (8 * m1.length + ·)) ≤ 8 * (m1 ++ m2).length := by
+    rw [he, List.length_append]; omega
+  obtain ⟨g1, g2⟩ := blocks_concat p hv {} rfl rfl (m1 ++ m2) (Bytes_append hb1 hb2) (L2.map (8 * m1.length + ·)) hL
+    (by intro h; apply hbg; intro h0; rw [h0] at h; simp at h)
+  refine ⟨h1, ?_, ?_⟩
+  · show r2.err = none
+    rw [← h4]; exact g1
+  · show ((r1.yields ++ r2.yields).map (·.1)).flatten = _
+    rw [← h2, g2, he]
+
+/-- once a padded call has completed, every further call on the object is refused and changes nothing -/
+theorem call_after_final_refused (p : Padder) (hv : Valid p) (st : PadState) (hflag : st.padflag = false)
+    (m : List Nat) (hm : Bytes m) (L : Option Nat) (hL : effLen m L ≤ 8 * m.length)
+    (hbg : L ≠ none → BitGranular p.scheme) (m' : List Nat) (L' : Option Nat) (padding' : Bool) :
+    let fin := (p.iterblocks st m L true).final
+    (p.iterblocks fin m' L' padding').yields = [] ∧ (p.iterblocks fin m' L' padding').err.isSome ∧
+      (p.iterblocks fin m' L' padding').final = fin :=
+  refuse_after_pad p _ m' L' padding' (padflag_law p hv st hflag m hm L hL hbg).1
+
 /-- two unpadded pieces in a row behave like one unpadded call on their concatenation -/
 theorem unpadded_append (p : Padder) (hv : Valid p) (st : PadState) (hflag : st.padflag = false)
     (m1 m2 : List Nat) (hm1 : (8 * m1.length) % p.blocksize = 0) (hm2 : (8 * m2.length) % p.blocksize = 0) :
